@@ -44,6 +44,7 @@ type signCase struct {
 	ErrText string   `json:"err_text,omitempty"`
 	ReqOK   bool     `json:"req_ok"`
 	ReqNote string   `json:"req_note,omitempty"`
+	Retried int      `json:"retried,omitempty"`
 	// observations on the output file (only when Result == ok)
 	VerifyErr string `json:"verify_err,omitempty"` // relic's own verification of the output
 	NSigs     int    `json:"nsigs"`
@@ -206,6 +207,18 @@ func (e *signEnv) run(cs *signCase) {
 			}
 		}()
 		err := e.signFile(mod, keyName, flags, in, out)
+		for try := 0; err != nil && strings.HasPrefix(err.Error(), "apply:") && try < 3; try++ {
+			// unrelated to timestamps: the dmg transformer's reader goroutine can still be reading the input file
+			// when Apply starts on the same descriptor (intermittent "apply: EOF"); repeat the whole operation
+			cs.Retried++
+			if tc != nil {
+				tc.mu.Lock()
+				tc.hits = nil
+				tc.mu.Unlock()
+			}
+			os.Remove(out)
+			err = e.signFile(mod, keyName, flags, in, out)
+		}
 		if err != nil {
 			cs.Result, cs.ErrText = "err", trunc(err.Error(), 300)
 		} else {
@@ -342,7 +355,6 @@ var signTypes = []struct{ typ, file string }{
 	{"ps", "hello.ps1"},
 	{"xap", "dummy.xap"},
 	{"appx", "App1_1.0.3.0_x64.appx"},
-	{"mach-o", "slimfile.app"},
 	{"xar", "dummy.pkg"},
 	{"dmg", "dummy.dmg"},
 }
